@@ -156,7 +156,13 @@ fn err_class(e: &miniscript::Error) -> String {
 fn check_desc_ms(d: &Descriptor<DK>, what: &str) -> Result<(), Failure> {
     use miniscript::descriptor::ShInner;
     match d {
-        Descriptor::Bare(b) => check_ms::<BareCtx>(b.as_inner(), what),
+        Descriptor::Bare(b) => {
+            // bare outputs: only the standard templates (pk, pkh, multisig with at most 3 keys)
+            if let Some(v) = crate::mirror::analysis::bare_template_violation(&ast::from_lib(b.as_inner())) {
+                return fail(&format!("bare-non-standard/{}", what), format!("compiled bare descriptor {} is not a standard template: {}", d, v));
+            }
+            check_ms::<BareCtx>(b.as_inner(), what)
+        }
         Descriptor::Wsh(w) => check_ms::<Segwitv0>(w.as_inner(), what),
         Descriptor::Sh(s) => match s.as_inner() {
             ShInner::Wsh(w) => check_ms::<Segwitv0>(w.as_inner(), what),
@@ -286,6 +292,21 @@ impl Check for C08 {
                 pols.push((format!("thresh({},{})", k, ks(n)), true));
             }
         }
+        // or-chains with halving odds: the Huffman tree of compile_tr is a chain whose depth is
+        // the number of keys minus 2 (limit 128)
+        for n in [129usize, 130, 131, 132, 133] {
+            let mut t = format!("pk({})", key(n - 1));
+            for i in (0..n - 1).rev() {
+                t = format!("or(1@pk({}),1@{})", key(i), t);
+            }
+            pols.push((t, true));
+        }
+        // key thresholds for bare outputs (standard templates: at most 3 keys)
+        for n in [2usize, 3, 4, 5] {
+            for k in 1..=n.min(3) {
+                pols.push((format!("thresh({},{})", k, ks(n)), false));
+            }
+        }
         let mut compiled = 0u64;
         let mut refused = 0u64;
         for (text, tap_only) in &pols {
@@ -328,8 +349,12 @@ impl Check for C08 {
                 ms_t!(BareCtx, "boundary/compile<Bare>");
                 desc_t!(c.compile_to_descriptor::<Legacy>(DescriptorCtx::Sh), "boundary/to_desc(Sh)");
                 desc_t!(c.compile_to_descriptor::<Segwitv0>(DescriptorCtx::Wsh), "boundary/to_desc(Wsh)");
+                desc_t!(c.compile_to_descriptor::<BareCtx>(DescriptorCtx::Bare), "boundary/to_desc(Bare)");
             }
-            ms_t!(Tap, "boundary/compile<Tap>");
+            // (the generic compiler is exponential on or-chains: those go through compile_tr only)
+            if !text.starts_with("or(1@pk(") || text.len() < 4000 {
+                ms_t!(Tap, "boundary/compile<Tap>");
+            }
             desc_t!(c.compile_tr(None), "boundary/compile_tr");
             desc_t!(c.compile_to_descriptor::<Tap>(DescriptorCtx::Tr(None)), "boundary/to_desc(Tr)");
         }
